@@ -120,14 +120,16 @@ def gen_value(rng, depth=0):
 
 
 def gen_simple_value(rng):
-    return [Tok(rng.choice(["1", "42", "-1", "2.5", '"s"', '"a,b"', "true", "false", "0"]))]
+    return [Tok(rng.choice(["1", "42", "-1", "2.5", '"s"', '"a,b"', "true", "false", "0", '""']))]
 
 
 def gen_annotations(rng, p=0.15):
     out = []
     while rng.random() < p:
         out.append(Tok("@" + rng.choice(["nullable", "utf8InCpp", "Backing", "VintfStability", "A_1"])))
-        if rng.random() < 0.5:
+        if out[-1].text == "@Backing" and rng.random() < 0.4:
+            out += [Tok("("), Tok("type"), Tok("="), Tok(rng.choice(['""', '"byte"', '"int"', '"long"'])), Tok(")")]
+        elif rng.random() < 0.5:
             out.append(Tok("("))
             n = rng.randint(0, 3)
             # sometimes parameter names that differ only by case (distinct keys all the same)
@@ -210,7 +212,7 @@ def gen_doc(rng, package=None, name=None, kind=None, names=None, imports=None, d
                 code = None
                 mode = opts.get("codes", rng.choice(["none", "none", "all", "mixed"]))
                 if mode == "all" or (mode == "mixed" and rng.random() < 0.5):
-                    code = rng.choice(["1", "2", "3", "007", "7", "4294967295", "0", str(i + 10)])
+                    code = rng.choice(["1", "2", "3", "007", "7", "4294967295", "0", str(i + 10), "010", "08", "0019", "0777"])
                 d["members"].append({"m": "method", "name": mname, "oneway": rng.random() < 0.2,
                                      "ret": gen_type(rng, names, allow_void=True) if rng.random() < 0.6 else ("void",),
                                      "args": args, "code": code, "annotations": gen_annotations(rng), "doc": mdoc,
